@@ -51,7 +51,13 @@ CLIENT_ID = "c12-client"
 SECRET56 = "c12secret-0123456789abcdef0123456789abcdef0123456789abcd"   # 56 characters, the length Registration.secret() issues
 SECRET32 = "c12secret-0123456789abcdef012345"   # 32 characters
 assert len(SECRET56) == 56 and len(SECRET32) == 32
-ALL_RTS = ["code", "id_token", "code id_token"]
+def _configurable_response_types():
+    """every response type the relying-party half can be configured with (its response-mode table knows it)"""
+    from idpyoidc.client.defaults import DEFAULT_RESPONSE_MODE
+    return list(DEFAULT_RESPONSE_MODE.keys())
+
+
+ALL_RTS = _configurable_response_types()
 USER = "diana"
 
 SIG_KEYDEFS = [
@@ -410,6 +416,7 @@ class FlowFailure(Exception):
 #   par            the pushed-authorization endpoint refuses the pushed request
 #   authz_parse    the provider's authorization endpoint refuses the request when parsing it
 #   authz_process  ... refuses / answers with an error when processing it
+#   rp_finalize    the relying party rejects the authorization / token / userinfo response it received
 #   token          the token request fails
 #   userinfo       the userinfo request fails
 #   other:<stage>  anything else
@@ -427,7 +434,7 @@ def canonical_where(stage, log):
         for name, status, _ in reversed(log):
             if status != 200 and name in ("token", "userinfo"):
                 return name
-        return "other:finalize"
+        return "rp_finalize"       # the relying party itself rejects what it received
     return "other:" + stage
 
 
@@ -568,6 +575,11 @@ def run_flow(pair, scope, claims=None, extra_args=None, do_refresh=True, do_intr
     obs["userinfo_wire"] = pair.last_userinfo_wire
     # the ID Token string the relying party ended up with (token response, else authorization response)
     obs["raw_id_token"] = (obs["token_response"] or {}).get("id_token") or delivered.get("id_token")
+    obs["id_token_from"] = ("token" if (obs["token_response"] or {}).get("id_token") else
+                            "authz" if delivered.get("id_token") else None) if res.get("id_token") is not None else None
+    _at = res.get("token")
+    obs["access_token_from"] = (None if not _at else "token" if (obs["token_response"] or {}).get("access_token") == _at
+                                else "authz" if delivered.get("access_token") == _at else "unknown")
     obs["rp_client_id"] = rp.get_client_id()
     obs["rp_callbacks"] = (rp.get_context().get_preference("callback_uris") or {}).get("redirect_uris")
     obs["rp_use"] = dict(getattr(pair, "rp_use", {}))
@@ -592,7 +604,7 @@ def run_flow(pair, scope, claims=None, extra_args=None, do_refresh=True, do_intr
                                  authn_method="client_secret_basic", state=st)
         ir = stage("introspection", intro)
         obs["introspection"] = ir.to_dict() if hasattr(ir, "to_dict") else dict(ir)
-    if at and do_refresh and "offline_access" in scope and "code" in c["rt"].split(" "):
+    if at and do_refresh and (obs["token_response"] or {}).get("refresh_token"):
         def refresh():
             return rp.refresh_access_token(st)
         rr = stage("refresh", refresh)
